@@ -226,4 +226,22 @@ def run(ctx, prog, res):
     r7.floor(6)
 
     # W --------------------------------------------------------------------------------------
+    # R8 -------------------------------------------------------------------------------------
+    r8 = res.rule("C14.R8", "the most recently added range wins wherever it applies: `insert` has no way out that leaves the inserted range behind - every path to a return passes through the place where the inserted range itself is put into the resulting vector")
+    ins = prog.require_fn("opening_hours::schedule::Schedule::insert")
+    puts = []
+    for bb, t in ins.calls():
+        nm = (t.get("callee") or {}).get("name") or ""
+        if nm in ("push", "insert", "push_back", "extend_one") and len(t["args"]) >= 2 and 2 in flow.root_params(ins, t["args"][-1]):
+            puts.append(bb)
+        elif nm in ("from", "into", "from_iter", "collect", "chain") and any(2 in flow.root_params(ins, a) for a in t["args"]) and "TimeRange" in str((t.get("callee") or {}).get("path_args")) and "once" in flow.shape(ins, t["args"][-1], depth=4):
+            puts.append(bb)
+    rets = [bb for bb, b in ins.live_blocks() if b["term"]["k"] == "return"]
+    r8.check(bool(puts), {"fn": "insert", "inserted_range_put_at_blocks": puts}, "C14.R8:ANCHOR", "ANCHOR: insert no longer pushes its argument into a vector of periods", lib.where_of(ins))
+    if puts:
+        escapes = flow.reach_avoiding(ins, 0, rets, puts)
+        r8.check(not escapes, {"fn": "insert", "returns": len(rets), "every_return_after_the_put": True}, "C14.R8:must-put",
+                 "Schedule::insert can return without having put the inserted range into the result (an early way out): a range added later is then dropped instead of overriding what it covers", lib.where_of(ins))
+    r8.floor(2)
+
     witness.run_doctests(ctx, prog, res, "C14.W", "outside the crate a Schedule cannot be built from raw ranges nor its vector reached; twins compile", "c14", floor=4)
